@@ -18,6 +18,7 @@ import (
 	"errors"
 	"fmt"
 	"runtime"
+	"runtime/debug"
 	"sort"
 	"strconv"
 	"strings"
@@ -47,6 +48,10 @@ type c18Worker struct {
 	done      bool
 	waitOwner int // the worker whose pending entry this worker found (at excl.wait)
 	waitSeq   int // number of excl.done(ref) events of that owner seen when parking
+	// tclass is the result type of the exclusive decode the worker is in (0:
+	// *c18Val, 1: *c18Other); the pending table is keyed by (reference, type)
+	tclass int
+	waitTc int // the type class of the entry the worker waits for
 }
 
 type c18Event struct {
@@ -54,6 +59,7 @@ type c18Event struct {
 	point string
 	ref   Reference
 	fin   bool
+	tc    int
 }
 
 // c18Val is what the decode functions produce: a fresh identity per run plus
@@ -81,6 +87,7 @@ type c18Result struct {
 	call     int64 // controller step at invocation
 	ret      int64 // controller step at return
 	ownRuns  int   // decode-function runs performed by this call
+	panicked string
 	wasAlone bool
 }
 
@@ -99,6 +106,7 @@ type c18Run struct {
 	choices   []int
 	branching []int
 	stuck     string
+	protocol  string // an exclusive decode waited although none of its type was in flight
 }
 
 func c18Payload(obj Object) string {
@@ -121,9 +129,15 @@ func c18Execute(g Getter, prog [][]c18Op, prefix []int, pick func(n int) int) *c
 	type ownerRef struct {
 		w   int
 		ref Reference
+		tc  int
+	}
+	type refType struct {
+		ref Reference
+		tc  int
 	}
 	doneCnt := map[ownerRef]int{}
-	lastRegistrant := map[Reference]int{}
+	lastRegistrant := map[refType]int{}
+	inFlight := map[refType]bool{} // registered and not yet removed from the pending table
 	var step atomic.Int64
 
 	hook := func(point string, ref Reference) {
@@ -131,7 +145,7 @@ func c18Execute(g Getter, prog [][]c18Op, prefix []int, pick func(n int) int) *c
 		if w == nil {
 			return
 		}
-		events <- c18Event{w: w, point: point, ref: ref}
+		events <- c18Event{w: w, point: point, ref: ref, tc: w.tclass}
 		<-w.grant
 	}
 	verifSchedHook.Store(&hook)
@@ -148,8 +162,20 @@ func c18Execute(g Getter, prog [][]c18Op, prefix []int, pick func(n int) int) *c
 			registered <- struct{}{}
 			<-w.grant
 			for _, op := range ops {
-				res := c18RunOp(x, op, w.id, &step, run, &mu)
+				res := func() (res c18Result) {
+					// a panic in the library must not take the controller down with it
+					defer func() {
+						if p := recover(); p != nil {
+							res = c18Result{worker: w.id, op: op, call: step.Load(), ret: step.Load(),
+								panicked: fmt.Sprintf("%v\n%s", p, kit.Trunc(string(debug.Stack()), 1500))}
+						}
+					}()
+					return c18RunOp(x, op, w.id, &step, run, &mu, &w.tclass)
+				}()
 				resCh[w.id] = append(resCh[w.id], res)
+				if res.panicked != "" {
+					break
+				}
 			}
 			events <- c18Event{w: w, fin: true}
 		}(w, ops)
@@ -163,7 +189,7 @@ func c18Execute(g Getter, prog [][]c18Op, prefix []int, pick func(n int) int) *c
 			if w.done {
 				continue
 			}
-			if w.point == "excl.wait" && doneCnt[ownerRef{w.waitOwner, w.ref}] <= w.waitSeq {
+			if w.point == "excl.wait" && doneCnt[ownerRef{w.waitOwner, w.ref, w.waitTc}] <= w.waitSeq {
 				continue
 			}
 			out = append(out, w)
@@ -203,12 +229,29 @@ func c18Execute(g Getter, prog [][]c18Op, prefix []int, pick func(n int) int) *c
 				ev.w.point, ev.w.ref = ev.point, ev.ref
 				switch ev.point {
 				case "excl.registered":
-					lastRegistrant[ev.ref] = ev.w.id
+					lastRegistrant[refType{ev.ref, ev.tc}] = ev.w.id
+					inFlight[refType{ev.ref, ev.tc}] = true
+				case "excl.closing":
+					delete(inFlight, refType{ev.ref, ev.tc})
 				case "excl.wait":
-					ev.w.waitOwner = lastRegistrant[ev.ref]
-					ev.w.waitSeq = doneCnt[ownerRef{ev.w.waitOwner, ev.ref}]
+					wtc := ev.tc
+					if !inFlight[refType{ev.ref, wtc}] {
+						// no exclusive decode of this (reference, type) is registered: the
+						// entry the worker found belongs to a decode of the other type
+						// (what comes of that is judged by the outcome)
+						wtc = 1 - wtc
+						run.trace = append(run.trace, fmt.Sprintf("w%d:waits-for-type%d-entry", ev.w.id, wtc))
+					}
+					if !inFlight[refType{ev.ref, wtc}] {
+						// the goroutines stay parked, as for a deadlock
+						run.protocol = fmt.Sprintf("worker %d waits for an exclusive decode of object %d although none is in flight", ev.w.id, ev.ref.Number())
+						return run
+					}
+					ev.w.waitTc = wtc
+					ev.w.waitOwner = lastRegistrant[refType{ev.ref, wtc}]
+					ev.w.waitSeq = doneCnt[ownerRef{ev.w.waitOwner, ev.ref, wtc}]
 				case "excl.done":
-					doneCnt[ownerRef{ev.w.id, ev.ref}]++
+					doneCnt[ownerRef{ev.w.id, ev.ref, ev.tc}]++
 				}
 				run.trace = append(run.trace, fmt.Sprintf("w%d:%s(%d)", ev.w.id, ev.point, ev.ref.Number()))
 			}
@@ -232,7 +275,7 @@ func c18Execute(g Getter, prog [][]c18Op, prefix []int, pick func(n int) int) *c
 
 var errC18Decode = errors.New("verif: decoder failed")
 
-func c18RunOp(x *Extractor, op c18Op, worker int, step *atomic.Int64, run *c18Run, mu *sync.Mutex) c18Result {
+func c18RunOp(x *Extractor, op c18Op, worker int, step *atomic.Int64, run *c18Run, mu *sync.Mutex, tclass *int) c18Result {
 	c := CursorAt(x, nil)
 	res := c18Result{worker: worker, op: op, call: step.Load()}
 	count := func(class string) {
@@ -285,6 +328,16 @@ func c18RunOp(x *Extractor, op c18Op, worker int, step *atomic.Int64, run *c18Ru
 		if res.other == nil {
 			res.err = errors.New("StoreOrLoadPair returned a nil second half")
 		}
+	case 'Z': // an exclusive decode of the second type
+		*tclass = 1
+		var o *c18Other
+		o, res.err = DecodeExclusive(c, op.ref, func(c Cursor, obj Object, _ bool) (*c18Other, error) {
+			count("Z")
+			return &c18Other{id: c18NextID.Add(1)}, nil
+		})
+		*tclass = 0
+		res.other = o
+		res.val = &c18Val{id: -1, payload: "other-type"}
 	case 'Q': // a plain Decode of the pair's second type
 		var o *c18Other
 		o, res.err = Decode(c, op.ref, func(c Cursor, obj Object, _ bool) (*c18Other, error) {
@@ -333,6 +386,9 @@ func c18Programs() []c18Program {
 		{name: "Q1|P1 (plain decode of the pair's second type)", prog: [][]c18Op{{op('Q', a)}, {op('P', a)}}},
 		{name: "D1P1|Q1", prog: [][]c18Op{{op('D', a), op('P', a)}, {op('Q', a)}}, depth: 2},
 		{name: "Q1Q1|P1Q1", prog: [][]c18Op{{op('Q', a), op('Q', a)}, {op('P', a), op('Q', a)}}, depth: 3},
+		{name: "X1|Z1 (exclusive decodes of one reference as two types)", prog: [][]c18Op{{op('X', a)}, {op('Z', a)}}, depth: 2},
+		{name: "Z1|Z1", prog: [][]c18Op{{op('Z', a)}, {op('Z', a)}}},
+		{name: "X1Z1|Z1X1", prog: [][]c18Op{{op('X', a), op('Z', a)}, {op('Z', a), op('X', a)}}, depth: 4, heavy: true},
 		{name: "Y1|Y1", prog: [][]c18Op{{op('Y', a)}, {op('Y', a)}}},
 		{name: "Y1|X1", prog: [][]c18Op{{op('Y', a)}, {op('X', a)}}, depth: 2},
 		{name: "F1|D1", prog: [][]c18Op{{op('F', a)}, {op('D', a)}}},
@@ -424,6 +480,10 @@ func c18Judge(c *kit.Case, p c18Program, run *c18Run, objs c18Getter) {
 		c.Violationf("infrastructure/stuck", "%s\n%s", ctx(), run.stuck)
 		return
 	}
+	if run.protocol != "" {
+		c.Violationf("exclusive-waits-without-pending-decode/"+p.name, "%s\n%s", ctx(), run.protocol)
+		return
+	}
 	if run.deadlock {
 		c.Violationf("deadlock/"+p.name, "%s\nevery unfinished worker is blocked waiting for an exclusive decode that can never finish", ctx())
 		return
@@ -439,6 +499,10 @@ func c18Judge(c *kit.Case, p c18Program, run *c18Run, objs c18Getter) {
 	for i, res := range run.results {
 		// chains: reference 3 is cached under 3 and under 1
 		k := key{res.op.ref, "val"}
+		if res.panicked != "" {
+			c.Violationf("panic/"+p.name, "%s\n%v panicked: %s", ctx(), res.op, res.panicked)
+			continue
+		}
 		if res.err != nil && res.op.kind != 'P' {
 			if !errors.Is(res.err, errC18Decode) {
 				c.Violationf("unexpected-error/"+string(res.op.kind), "%s\n%v returned %v", ctx(), res.op, res.err)
@@ -450,9 +514,9 @@ func c18Judge(c *kit.Case, p c18Program, run *c18Run, objs c18Getter) {
 			c.Violationf("pair-half-missing/"+p.name, "%s\n%v", ctx(), res.err)
 			continue
 		}
-		if res.op.kind == 'Q' {
+		if res.op.kind == 'Q' || res.op.kind == 'Z' {
 			if res.other == nil {
-				c.Violationf("nil-result/Q", "%s\n%v returned nil without error", ctx(), res.op)
+				c.Violationf("nil-result/"+string(res.op.kind), "%s\n%v returned nil without error", ctx(), res.op)
 			} else if prev, ok := others[res.op.ref]; ok && prev != res.other {
 				c.Violationf("identity-pair/"+p.name, "%s\ntwo decodes of the pair's second type for reference %d returned different Go values", ctx(), res.op.ref.Number())
 			} else {
@@ -499,7 +563,7 @@ func c18Judge(c *kit.Case, p c18Program, run *c18Run, objs c18Getter) {
 		}
 	}
 	for k, n := range run.runs {
-		if k[0] == 'X' && allSucceed && n > 1 {
+		if (k[0] == 'X' || k[0] == 'Z') && allSucceed && n > 1 {
 			c.Violationf("exclusive-ran-twice/"+p.name, "%s\nthe exclusive decode function for object %s ran %d times", ctx(), k[1:], n)
 		}
 	}
